@@ -204,6 +204,8 @@ def build(v, env, ghost_fn):
         if '$obj' in v:
             cls = _cls(v['$obj'])
             if getattr(cls, '__standin_abstract__', False):
+                if 'id' in v:
+                    env[v['id']] = None
                 return None         # C07: an abstract program / analysis; replaced by a candidate (replay())
             import inspect as _inspect
             if _inspect.isabstract(cls) and cls.__name__ == 'Context':
@@ -265,6 +267,8 @@ def show(v, depth=0):
     try:
         if type(v).__name__ == '_Env':
             return f'_Env(env={v.env!r}, terminated={v.terminated})'
+        if type(v).__name__ == '_DeadCodeEliminate':
+            return f'_DeadCodeEliminate(func={show(v.func)})'
         if type(v).__name__ == 'FuncDefM':
             return 'FuncDef<' + ' ; '.join(v.format().split('\n')[1:]) + '>'
         if type(v).__name__ == '_Ctx':
@@ -336,7 +340,7 @@ def replay_with(doc, ctx_standin, ghost_override=None, cand=None):
     env = {'__ctx__': ctx_standin}
     global _KB
     _KB = KeyBuilder(doc)
-    pending = dict(doc['args'])
+    pending = {k: v for k, v in doc['args'].items() if cand is None or k not in cand}
     built = {}
     for _ in range(len(pending) + 1):          # a '$ref' may point at an argument built later
         for k in list(pending):
@@ -347,9 +351,7 @@ def replay_with(doc, ctx_standin, ghost_override=None, cand=None):
                 pass
     if pending:
         raise KeyError(f'unresolved $ref in arguments {sorted(pending)}')
-    args = {k: built[k] for k in doc['args']}
-    if cand is not None:
-        args.update(cand)
+    args = {k: (cand[k] if cand is not None and k in cand else built[k]) for k in doc['args']}
     if _KB.memo:
         # C15: ghosts over AST nodes mean the reference rule set on the real objects; forall_keys ranges
         # over every key built from the model plus two names that occur nowhere
